@@ -225,3 +225,266 @@ for _n in R2_MORPH:
     _r2_solver(_n)
 for _n in R2_STAR:
     _r2_star(_n)
+
+
+# =====================================================================================
+# C12  radiative shocks  (exactpack/solvers/radshocks/{nED_radshocks,radshock,utils,fnctn_ED}.py)
+# =====================================================================================
+RSW = 'exactpack.solvers.radshocks.nED_radshocks'
+RSP = 'exactpack.solvers.radshocks.radshock'
+RSU = 'exactpack.solvers.radshocks.utils'
+RSF = 'exactpack.solvers.radshocks.fnctn_ED'
+
+
+def vec2(name):
+    a = np.empty(2, dtype=object)
+    a[0], a[1] = S(name + '0'), S(name + '1')
+    return a
+
+
+class _Ns(object):
+    """attribute bag"""
+
+    def __init__(self, **kw):
+        self.__dict__.update(kw)
+
+
+def _scipy_stub(cap):
+    """stands in for the name `scipy` inside utils.py: root finder and ODE integrator are ATOMS.
+    fsolve(momentum_and_energy, …) returns the free symbols (rho1, T1) and records the residual
+    function evaluated at a generic (rho, T); the two discriminant solves return free symbols;
+    odeint returns one free symbol per requested abscissa."""
+    def fsolve(f, x0, *a, **k):
+        if f.__name__ == 'momentum_and_energy':
+            cap['residual'] = f([S('rho'), S('T')])
+            return [S('rho1'), S('T1')]
+        return S('root_' + f.__name__)
+
+    def odeint(f, y0, ts, *a, **k):
+        out = np.empty((len(ts), 1), dtype=object)
+        for i in range(len(ts)):
+            out[i, 0] = S('x_ode%d' % i)
+        return out
+    return _Ns(optimize=_Ns(fsolve=fsolve), integrate=_Ns(odeint=odeint))
+
+
+@target('RadJump', ['rad', 'radshock'])
+def _rad_jump():
+    """RadShockProfile.downstream_equilibrium: the residual `momentum_and_energy` whose root is the
+    far-downstream equilibrium state, and the derived downstream quantities"""
+    def run():
+        U = importlib.import_module(RSU)
+        prof = object.__new__(U.RadShockProfile)
+        prof.M0, prof.gamma, prof.P0 = S('M0'), S('gamma'), S('P0')
+        cap = {}
+        saved = U.scipy
+        U.scipy = _scipy_stub(cap)
+        try:
+            prof.downstream_equilibrium()
+        finally:
+            U.scipy = saved
+        mom, ene = cap['residual']
+        return (mom, ene, prof.M1, prof.speed1, prof.Pr1, prof.Er1, prof.rho1, prof.T1)
+    return trace_func('RadJump', run, [], ['momentum', 'energy', 'M1', 'speed1', 'Pr1', 'Er1', 'rho1', 'T1'], modules=[RSU],
+                      source=RSU + ':RadShockProfile.downstream_equilibrium [fsolve atoms]')
+
+
+@target('RadIEJump', ['rad', 'radshock'])
+def _rad_iejump():
+    """IEShockProfile.downstream_equilibrium: the hydrodynamic downstream state of the ion-electron shock"""
+    def run():
+        U = importlib.import_module(RSU)
+        prof = object.__new__(U.IEShockProfile)
+        prof.M0, prof.gamma, prof.rho0 = S('M0'), S('gamma'), S('rho0')
+        prof.downstream_equilibrium()
+        return (prof.M1, prof.speed1, prof.rho1, prof.T1)
+    return trace_func('RadIEJump', run, [], ['M1', 'speed1', 'rho1', 'T1'], modules=[RSU],
+                      source=RSU + ':IEShockProfile.downstream_equilibrium')
+
+
+ED_FIELDS = ['Tm', 'Density', 'Speed', 'Pressure', 'SIE', 'Fr', 'Mach']
+ED_PARAMS = ['M0', 'gamma', 'P0', 'C0', 'sigA', 'sigS', 'expDensity_abs', 'expTemp_abs', 'expDensity_scat', 'expTemp_scat']
+
+
+@target('RadED', ['rad', 'radshock'])
+def _rad_ed():
+    """ED_ShockProfiles.make_ED_solution on a three-point temperature grid [1, T, T1] (upstream
+    equilibrium, a generic interior temperature, downstream equilibrium): `numpy.linspace` returns the
+    one symbolic abscissa T, `odeint` and the `interp` that centres the profile are ATOMS, and the tail
+    that only builds Mach_precursor / Mach_relaxation (not used by the solver) sees an all-zero mask.
+    Outputs: the profile arrays at the three points (index 0 = upstream, 1 = interior, 2 = downstream)
+    and the traced ODE right-hand side dx/dT and total cross-section at T."""
+    def run():
+        U = importlib.import_module(RSU)
+        F = importlib.import_module(RSF)
+        prof = object.__new__(U.ED_ShockProfiles)
+        for k in ED_PARAMS:
+            setattr(prof, k, S(k))
+        prof.eps_precursor_equil, prof.eps_relaxation_equil = S('eps_pre'), S('eps_rel')
+        prof.left_pts, prof.use_jac = 1, False
+        prof.T1, prof.rho1, prof.M1 = S('T1'), S('rho1'), S('M1')
+        saved = (U.scipy, getattr(U, 'fnctn', None))
+        U.scipy, U.fnctn, U.print = _scipy_stub({}), F, (lambda *a, **k: None)
+        try:
+            prof.make_ED_solution()
+        finally:
+            U.scipy, U.fnctn = saved
+            del U.print
+        out = []
+        for i in range(3):
+            out += [getattr(prof, k)[i] for k in ED_FIELDS]
+        out += [F.dxdT(0., S('T'), prof), F.sigma_t(S('T'), prof), F.rho(S('T'), prof)]
+        return tuple(out)
+
+    def linspace(a, b, n, *r, **k):
+        o = np.empty(1, dtype=object)
+        o[0] = S('T')
+        return o
+
+    def interp(x, xp, fp, *r, **k):
+        return S('x_shift')
+
+    def where(c, a, b):
+        return np.zeros(len(a))
+
+    class Quiet(np.ndarray):
+        """the Mach array is compared with 1 only to build Mach_precursor / Mach_relaxation, which the
+        solver never reads: those comparisons are not path decisions of the profile"""
+
+        def __ge__(self, o):
+            return np.zeros(self.shape, dtype=bool)
+
+        def __lt__(self, o):
+            return np.zeros(self.shape, dtype=bool)
+
+    _sqrt = sym._un('sqrt', np.sqrt)
+
+    def qsqrt(x, *a, **k):
+        r = _sqrt(x, *a, **k)
+        return r.view(Quiet) if isinstance(r, np.ndarray) and r.dtype == object else r
+    outs = ['%s%d' % (k, i) for i in range(3) for k in ED_FIELDS] + ['dxdT', 'sigma_t', 'rho']
+    return trace_func('RadED', run, [], outs, modules=[RSU, RSF],
+                      extra_shims={'np': dict(linspace=linspace, interp=interp, where=where, sqrt=qsqrt)},
+                      source=RSU + ':ED_ShockProfiles.make_ED_solution + fnctn_ED [odeint, interp atoms]')
+
+
+# ---- the four public wrappers -----------------------------------------------------------------------
+RAD_WRAPPERS = {
+    'RadWrapED': ('ED_Solver', dict(), ['x', 'Fr', 'Tm', 'Density', 'Speed', 'Mach', 'Pressure']),
+    'RadWrapNED': ('nED_Solver', dict(problem='nED'), ['x', 'Fr', 'Tm', 'Tr', 'Density', 'Speed', 'Mach', 'Pressure']),
+    'RadWrapSn': ('Sn_Solver', dict(problem='nED', Sn=16), ['x', 'Fr', 'Tm', 'Tr', 'Density', 'Speed', 'Mach', 'Pressure', 'x_RT', 'f']),
+    'RadWrapIE': ('ie_Solver', dict(), ['x', 'Ti', 'Tm', 'Te', 'Density', 'Speed', 'Mach', 'Pressure', 'Fe']),
+}
+RAD_ATTRS = {
+    'RadWrapED': ['sound', 'Fr', 'Tm', 'Density', 'Speed', 'Mach', 'Pressure', 'SIE', 'RADE', 'Sound_Speed', 'P0', 'C0'],
+    'RadWrapNED': ['sound', 'Fr', 'Tm', 'Tr', 'Density', 'Speed', 'Mach', 'Pressure', 'SIE', 'RADE', 'Sound_Speed', 'P0', 'C0'],
+    'RadWrapSn': ['sound', 'Fr', 'Tm', 'Tr', 'Density', 'Speed', 'Mach', 'Pressure', 'SIE', 'RADE', 'Sound_Speed', 'P0', 'C0'],
+    'RadWrapIE': ['sound', 'Ti', 'Tm', 'Te', 'Density', 'Speed', 'Mach', 'Pressure', 'SIE', 'Sound_Speed'],
+}
+
+
+def _rad_problem_module():
+    """stands in for the name `radshock` inside nED_radshocks.py.  The problem classes are the REAL ones
+    (their constructors compute sound, C0, P0 from the instance's gamma, Cv, Tref, rho0); only the
+    drivers — the ODE integrations that build the stored profile — are replaced: they install a profile
+    whose arrays are two free symbols each (ATOM: the stored nondimensional profile)."""
+    R = importlib.import_module(RSP)
+
+    def prof(names):
+        return _Ns(**{n: vec2('prof_' + n) for n in names})
+
+    class ED(R.greyED_RadShock):
+        def ED_driver(self):
+            self.ED_profile = prof(RAD_WRAPPERS['RadWrapED'][2])
+
+    class NED(R.greyNED_RadShock):
+        def nED_driver(self, epsilon=1., **k):
+            self.nED_profile = prof(RAD_WRAPPERS['RadWrapNED'][2])
+
+    class SN(R.greySn_RadShock):
+        def Sn_driver(self, Sn=16, f_tol=1.e-4, **k):
+            self.Sn_profile = prof(RAD_WRAPPERS['RadWrapSn'][2])
+
+    class IE(R.Shock_2Tie):
+        def IE_driver(self):
+            self.IE_profile = prof(RAD_WRAPPERS['RadWrapIE'][2])
+    return _Ns(greyED_RadShock=ED, greyNED_RadShock=NED, greySn_RadShock=SN, Shock_2Tie=IE)
+
+
+class _Interp(object):
+    """`np.interp(x, xp, fp)` on the stored profile.  When every abscissa is `base_i + shift` with one common
+    `shift`, the piecewise-linear interpolant through (base_i + shift, fp_i) evaluated at x is the interpolant
+    through (base_i, fp_i) evaluated at x - shift (also in the clamped ends); it is kept as the application
+    of an uninterpreted function symbol `prof<k>` (k = k-th interpolated field) to x - shift.  `base_i`, `fp_i`
+    must not depend on time — otherwise the trace fails, so "nothing else changes with time" is checked here."""
+
+    def __init__(self, tvar='t'):
+        self.k = 0
+        self.tvar = tvar
+        self.funs = {}
+
+    def __call__(self, x, xp, fp, *a, **kw):
+        xp = np.asarray(xp, dtype=object).reshape(-1)
+        fp = np.asarray(fp, dtype=object).reshape(-1)
+        shift = None
+        ok = True
+        for e in xp:
+            if isinstance(e, E) and e.op == 'add' and self.tvar in symbols(e.a[1]):
+                if shift is None:
+                    shift = e.a[1]
+                ok = ok and shift.id == e.a[1].id and self.tvar not in symbols(e.a[0])
+            else:
+                ok = False
+        if not ok:
+            # an interpolation that does not involve time (Sn: the Eddington factor on the hydro grid): atoms
+            if any(self.tvar in symbols(e) for e in list(xp) + list(fp) if isinstance(e, E)):
+                raise TraceError('np.interp: the abscissae are not a common time shift of a stored array')
+            out = np.empty(np.shape(x), dtype=object)
+            for i in range(out.size):
+                out.reshape(-1)[i] = S('interp%d_%d' % (len(self.funs) + 100, i))
+            self.funs['x%d' % len(self.funs)] = None
+            return out
+        for e in fp:
+            if isinstance(e, E) and self.tvar in symbols(e):
+                raise TraceError('np.interp: the interpolated profile array depends on time')
+        name = 'prof%d' % self.k
+        self.k += 1
+        xs = np.asarray(x, dtype=object)
+        out = np.empty(xs.shape, dtype=object)
+        for i in range(xs.size):
+            out.reshape(-1)[i] = E('app', name, E('sub', sym.lift(xs.reshape(-1)[i]), shift))
+        return out
+
+
+def _rad_wrapper(name):
+    cls, concrete, _ = RAD_WRAPPERS[name]
+
+    @target(name, ['rad', 'radshock'], floats=False)
+    def _b():
+        ip = _Interp()
+        m = trace_solver(name, '%s:%s' % (RSW, cls), pvars=('x',), tvar='t', mode='init', concrete=concrete,
+                         extra_modules=[RSP],
+                         extra_shims={'radshock': _rad_problem_module(), 'np': dict(interp=ip)})
+        return with_funs(m, {'prof%d' % i: 1 for i in range(ip.k)})
+
+    @target(name.replace('Wrap', 'Attr'), ['rad', 'radshock'])
+    def _a():
+        """the solver attributes `setup_solver` derives from the stored nondimensional profile (first node)"""
+        from ..trace import load, sym_params
+        _, C = load('%s:%s' % (RSW, cls))
+
+        def run():
+            s = C(**sym_params(C, concrete))
+            out = []
+            for k in RAD_ATTRS[name]:
+                v = getattr(s, k)
+                out.append(v[0] if isinstance(v, np.ndarray) else v)
+            return tuple(out)
+        return trace_func(name.replace('Wrap', 'Attr'), run, [], RAD_ATTRS[name], modules=[RSW, RSP],
+                          extra_shims={'radshock': _rad_problem_module(), 'np': dict(interp=_Interp())},
+                          source='%s:%s.setup_solver + %s:RadShock.__init__ [profile atoms]' % (RSW, cls, RSP))
+    return _b
+
+
+for _n in RAD_WRAPPERS:
+    _rad_wrapper(_n)
